@@ -5,6 +5,8 @@ From Virel Require Import Lib.Config Lib.U64 Lib.AMap Model.Emission Model.Ledge
   Proofs.Emission Proofs.Conservation Proofs.StakedSum Proofs.Mempool Proofs.Mempool2 Proofs.Mempool3 Proofs.Mempool4 Proofs.Mempool5 Proofs.Mempool6
   Proofs.ForkChoice Proofs.ChainInv Proofs.Refine2 Proofs.Replay2 Proofs.Replay3 Proofs.Replay4 Proofs.Replay5 Proofs.ChainExamples Proofs.Replay6
   Proofs.KeyInv Proofs.NodeConservation Proofs.NodeConservationEx Gen.Params.
+From Virel Require Import Proofs.MempoolPot Proofs.BranchRefuted Proofs.NonceOnceEx Proofs.StakedBound Proofs.StakedBoundNode
+  Proofs.MempoolInv Proofs.TemplateReach Proofs.TemplateReachEx.
 From Virel Require Model.Des Model.Codec Spec.TxAbs Proofs.CodecBridge Proofs.CodecBridgeNode.
 Open Scope N_scope.
 
@@ -204,10 +206,218 @@ Theorem C09_linv_reachable_example :
 Proof. exact reachable_example_linv. Qed.
 Print Assumptions C09_linv_reachable_example.
 
-(* STILL NOT PROVED (correspondence run only): that [mp_inv] holds in every reachable state of the wrapped node ([mp_inv]
-   is proved for TX packets only, not for the re-adding of transactions by RemoveBlockFromState); that
-   staked + sum of balances < 2^64 in every reachable ledger (each of the two is: Props/C01.v); the side-block,
-   stake-signature and coinbase clauses for a completed template; C09_full itself is refuted (above).
+(* ================================================================================================================ *)
+(* THE TWO REMAINING HYPOTHESES OF C09_template_txs_ok, DERIVED FOR REACHABLE STATES
+   (Proofs/StakedBound.v, StakedBoundNode.v, MempoolInv.v, TemplateReach.v, TemplateReachEx.v).
+
+   (a) staked + sum of balances < 2^64.  Staked coins are HELD at the pool addresses: a stake debits amount + fee at the
+   signer's key address and credits the amount to the delegate address while the staked total grows by it; an unstake
+   debits the delegate address and lowers the staked total by the same amount; a staker reward is credited to the delegate
+   address of the rewarded pool while the staked total grows by it; nothing else debits a delegate address.  Key addresses
+   are odd numbers in the model, delegate addresses and the burn address even.  With
+       odd_bal l = the balances at odd (key) addresses,   DInv l :  staked l + odd_bal l <= total_bal l
+   (the staked total never exceeds what lies at even addresses) DInv holds along every chain (tx_d = uint64-typed amounts,
+   overflow-free total, version byte of the payload kind or 0 with a transfer): *)
+Theorem C09_staked_le_balances_chain : forall cfg genesis_addr, cfg_ok_emission cfg = true ->
+  forall bs l (h : nat) l',
+  total_bal l = sum_rewards cfg h -> heights_from h bs ->
+  Forall (fun b => Forall (tx_d cfg) (lb_txs b)) bs -> SInv l ->
+  apply_chain cfg genesis_addr l bs = Ok l' -> DInv l -> DInv l'.
+Proof. exact apply_chain_DInv. Qed.
+Print Assumptions C09_staked_le_balances_chain.
+
+Theorem C09_staked_le_balances_initial : DInv ledger0 /\ (forall l, DInv l -> staked l <= total_bal l).
+Proof. exact (conj DInv0 DInv_staked_le). Qed.
+Print Assumptions C09_staked_le_balances_initial.
+
+(* ... and in every reachable node state (premises of C03_ledger_is_replay; reorganisations included: delegate table and
+   staked total equal those of the replay of the main chain, the sum of balances is the scheduled emission in both):
+   staked <= sum of balances <= MAX_SUPPLY, and 2 * MAX_SUPPLY < 2^64 is part of cfg_ok_emission (C03_cfg_ok_ theorems
+   for the four configurations), so hypothesis (a) holds.  No new condition on the constants. *)
+Theorem C09_staked_bound_reachable : forall cfg genesis_addr team_key g n0 ops,
+  cfg_ok_emission cfg = true -> cfg_ok_feepos cfg = true ->
+  node0 cfg genesis_addr g = Ok n0 -> b_height g = 0 -> b_cd g = b_diff g ->
+  N.of_nat (length ops) < two64 - 1 ->
+  let n := run cfg genesis_addr team_key n0 ops in
+  Forall (tx_c cfg) (b_txs g) ->
+  (forall h b, get_block n h = Some b -> Forall (fun t => wf_tx cfg t /\ ver_ok t = true) (b_txs b)) ->
+  (forall bs, up (b_hash g) (blocks n) (b_hash g) bs ->
+     NoDup (bkeys g ++ flat_map bkeys bs) /\ c0 g + bnouts bs < two64 /\ c0 g + bntx bs < two64) ->
+  staked (ldg n) <= total_bal (ldg n) /\
+  staked (ldg n) + total_bal (ldg n) <= 2 * max_supply cfg /\
+  staked (ldg n) + total_bal (ldg n) < two64.
+Proof. exact reachable_staked_bound. Qed.
+Print Assumptions C09_staked_bound_reachable.
+
+(* the height hypothesis of C09_template_txs_ok as well: the tip height is below the number of deliveries *)
+Theorem C09_height_bound_reachable : forall cfg genesis_addr team_key g n0 ops,
+  node0 cfg genesis_addr g = Ok n0 -> b_height g = 0 -> b_cd g = b_diff g ->
+  N.of_nat (length ops) < two64 - 1 ->
+  top_h (run cfg genesis_addr team_key n0 ops) + 1 < two64.
+Proof. exact reachable_height_bound. Qed.
+Print Assumptions C09_height_bound_reachable.
+
+(* C09_template_txs_ok FOR REACHABLE NODE STATES WITHOUT HYPOTHESIS (a), without [linv] and without the height bound: w is
+   any wrapped state whose node is the reachable n; [mp_inv] stays (next theorems) *)
+Theorem C09_template_txs_ok_reachable_ledger : forall cfg genesis_addr team_key g n0 ops,
+  cfg_ok_c09 cfg = true -> cfg_ok_emission cfg = true -> cfg_ok_feepos cfg = true ->
+  node0 cfg genesis_addr g = Ok n0 -> b_height g = 0 -> b_cd g = b_diff g ->
+  N.of_nat (length ops) < two64 - 1 ->
+  let n := run cfg genesis_addr team_key n0 ops in
+  Forall (tx_c cfg) (b_txs g) -> Forall (fun t => forall nl nm, tx_data t <> TRegister nl nm 0) (b_txs g) ->
+  (forall h b, get_block n h = Some b -> Forall (fun t => wf_tx cfg t /\ ver_ok t = true) (b_txs b)) ->
+  (forall bs, up (b_hash g) (blocks n) (b_hash g) bs ->
+     NoDup (bkeys g ++ flat_map bkeys bs) /\ c0 g + bnouts bs < two64 /\ c0 g + bntx bs < two64) ->
+  forall w rcpt now now_s t w' bh,
+  wn w = n -> mp_inv cfg w ->
+  get_block_template cfg false w rcpt now now_s = Ok (t, w') ->
+  exists l1 fee, apply_txs cfg (ldg (wn w)) (b_txs t) (b_height t) bh (top_h (wn w)) 0 = Ok (l1, fee).
+Proof. exact template_txs_applicable_reachable. Qed.
+Print Assumptions C09_template_txs_ok_reachable_ledger.
+
+(* non-vacuity of (a) with a non-zero stake: the node of Proofs/BranchRefuted.v that follows G-A1-A2-S3-S4-S5-S6 (one coin
+   staked in pool 2; premises: C02_at_most_once_premises of Props/C02.v) *)
+Theorem C09_staked_bound_example :
+  let n := run cfg_verifnet 7 0 r_node0 nx_ops in
+  staked (ldg n) = 1000000000 /\ total_bal (ldg n) = 1225000000000 /\
+  staked (ldg n) <= total_bal (ldg n) /\
+  staked (ldg n) + total_bal (ldg n) <= 2 * max_supply cfg_verifnet /\
+  staked (ldg n) + total_bal (ldg n) < two64.
+Proof. exact staked_bound_example. Qed.
+Print Assumptions C09_staked_bound_example.
+
+(* (b) THE MEMPOOL INVARIANT ACROSS BLOCK REMOVAL AND REORGANISATION.  [mp_inv] alone is not inductive across a
+   disconnection (the re-added entries are made from the transactions of the disconnected blocks); the inductive
+   invariant is
+     WInv w : (1) every pending entry has its transaction in the Tx index, was made from it, and that transaction is tx_adm;
+              (2) every transaction of every stored block is in the Tx index under its own id and is tx_adm.
+   It is kept by every event of the wrapped node: a BLOCK packet (wdeliver: PrevalidateBlock, AddBlock with any
+   reorganisation, the mempool maintenance: transactions of the disconnected blocks re-added, those of the connected blocks
+   removed, pruning), a TX packet, a stake signature, a template call.  Side condition on a delivered block
+   ([block_side w b]): its transactions are typed (uint64 amounts, version byte of the payload kind: the decoder, Props/C13.v)
+   and a transaction id names one transaction (a transaction of b whose id the Tx index already holds IS the stored one;
+   two transactions of b with one id are the same: ids are hashes).  Both are needed: C09_mp_inv_disconnect_needs_ids /
+   _needs_typed below. *)
+Theorem C09_mempool_invariant_steps : forall cfg genesis_addr team_key,
+  (forall g w0, b_txs g = [] -> wnode0 cfg genesis_addr g = Ok w0 -> WInv cfg w0) /\
+  (forall w b now now_s exp w' o amb, WInv cfg w -> block_side cfg w b ->
+     wdeliver cfg genesis_addr team_key w b now now_s exp = (w', o, amb) -> WInv cfg w') /\
+  (forall w t now_s expires w' adm, tx_typed t -> wf_tx cfg t -> WInv cfg w ->
+     packet_tx cfg team_key false w t now_s expires = Ok (w', adm) -> WInv cfg w') /\
+  (forall w h did key msg w', WInv cfg w -> handle_stake_sig w h did key msg = Ok w' -> WInv cfg w') /\
+  (forall w rcpt now now_s t w', WInv cfg w -> get_block_template cfg false w rcpt now now_s = Ok (t, w') -> WInv cfg w') /\
+  (forall w, WInv cfg w -> mp_inv cfg w).
+Proof.
+  intros cfg genesis_addr team_key.
+  exact (conj (wnode0_WInv cfg genesis_addr)
+        (conj (wdeliver_WInv cfg genesis_addr team_key)
+        (conj (packet_tx_WInv cfg team_key)
+        (conj (handle_stake_sig_WInv cfg)
+        (conj (template_WInv cfg) (WInv_mp_inv cfg)))))).
+Qed.
+Print Assumptions C09_mempool_invariant_steps.
+
+(* [reachable_t cfg ga tk g w]: w is reached from the genesis state by BLOCK packets satisfying [block_side], TX packets
+   with typed transactions, stake signatures and template calls, in any order (the [reachable] of C09_full with the side
+   conditions on the events).  In every such state the mempool invariant holds. *)
+Theorem C09_mempool_invariant_reachable : forall cfg genesis_addr team_key g w,
+  b_txs g = [] -> reachable_t cfg genesis_addr team_key g w -> mp_inv cfg w.
+Proof. exact reachable_mp_inv. Qed.
+Print Assumptions C09_mempool_invariant_reachable.
+
+Theorem C09_reachable_t_is_reachable : forall cfg genesis_addr team_key g w,
+  reachable_t cfg genesis_addr team_key g w -> reachable cfg genesis_addr team_key g w.
+Proof. exact reachable_t_reachable. Qed.
+Print Assumptions C09_reachable_t_is_reachable.
+
+(* C09_template_txs_ok WITH EVERY HYPOTHESIS ABOUT THE STATE DERIVED: w reachable (with the side conditions on the events),
+   its node the result of the deliveries ops with the premises of C03_ledger_is_replay on the final store, genesis without
+   transactions: the transaction list of every template passes the transaction loop of ApplyBlockToState. *)
+Theorem C09_template_txs_ok_reachable : forall cfg genesis_addr team_key g n0 ops,
+  cfg_ok_c09 cfg = true -> cfg_ok_emission cfg = true -> cfg_ok_feepos cfg = true ->
+  node0 cfg genesis_addr g = Ok n0 -> b_height g = 0 -> b_cd g = b_diff g -> b_txs g = [] ->
+  N.of_nat (length ops) < two64 - 1 ->
+  let n := run cfg genesis_addr team_key n0 ops in
+  (forall h b, get_block n h = Some b -> Forall (fun t => wf_tx cfg t /\ ver_ok t = true) (b_txs b)) ->
+  (forall bs, up (b_hash g) (blocks n) (b_hash g) bs ->
+     NoDup (bkeys g ++ flat_map bkeys bs) /\ c0 g + bnouts bs < two64 /\ c0 g + bntx bs < two64) ->
+  forall w rcpt now now_s t w' bh,
+  reachable_t cfg genesis_addr team_key g w -> wn w = n ->
+  get_block_template cfg false w rcpt now now_s = Ok (t, w') ->
+  exists l1 fee, apply_txs cfg (ldg (wn w)) (b_txs t) (b_height t) bh (top_h (wn w)) 0 = Ok (l1, fee).
+Proof. exact template_txs_ok_reachable. Qed.
+Print Assumptions C09_template_txs_ok_reachable.
+
+(* the same without the hypothesis "the node of w is the result of a delivery sequence": [reachable_k .. g k w] is
+   [reachable_t] with the number k of BLOCK packets counted; the node of such a state IS the result of at most k deliveries
+   (Proofs/TemplateReach.v reachable_k_run).  The premises about the store are stated on the store of w itself. *)
+Theorem C09_template_txs_ok_reachable_k : forall cfg genesis_addr team_key g n0 k w,
+  cfg_ok_c09 cfg = true -> cfg_ok_emission cfg = true -> cfg_ok_feepos cfg = true ->
+  node0 cfg genesis_addr g = Ok n0 -> b_height g = 0 -> b_cd g = b_diff g -> b_txs g = [] ->
+  reachable_k cfg genesis_addr team_key g k w -> N.of_nat k < two64 - 1 ->
+  (forall h b, get_block (wn w) h = Some b -> Forall (fun t => wf_tx cfg t /\ ver_ok t = true) (b_txs b)) ->
+  (forall bs, up (b_hash g) (blocks (wn w)) (b_hash g) bs ->
+     NoDup (bkeys g ++ flat_map bkeys bs) /\ c0 g + bnouts bs < two64 /\ c0 g + bntx bs < two64) ->
+  forall rcpt now now_s t w' bh,
+  get_block_template cfg false w rcpt now now_s = Ok (t, w') ->
+  exists l1 fee, apply_txs cfg (ldg (wn w)) (b_txs t) (b_height t) bh (top_h (wn w)) 0 = Ok (l1, fee).
+Proof. exact template_txs_ok_reachable_k. Qed.
+Print Assumptions C09_template_txs_ok_reachable_k.
+
+Theorem C09_reachable_t_counted : forall cfg genesis_addr team_key g w,
+  reachable_t cfg genesis_addr team_key g w <-> exists k, reachable_k cfg genesis_addr team_key g k w.
+Proof.
+  intros cfg genesis_addr team_key g w.
+  exact (conj (reachable_t_k cfg genesis_addr team_key g w)
+              (fun H => match H with ex_intro _ k Hk => reachable_k_t cfg genesis_addr team_key g k w Hk end)).
+Qed.
+Print Assumptions C09_reachable_t_counted.
+
+(* non-vacuity, across a reorganisation: G - A1 with a transfer of key 3 (m_tx), then B1 (child of G) and B2 (child of B1):
+   the node reorganises to G - B1 - B2, RemoveBlockFromState re-adds the transfer to the mempool (m_entry), the invariant
+   holds, every premise of the theorem above holds, the next template carries the transfer and its list is applicable *)
+Theorem C09_template_reach_example :
+  top (wn m_w1) = 2 /\ mpool m_w1 = [] /\ top (wn m_w2) = 2 /\ top (wn m_w3) = 5 /\
+  map b_hash (mchain (wn m_w3)) = [4; 5] /\
+  mpool m_w3 = [m_entry] /\ nget (txstore m_w3) 101 = Some m_tx /\
+  reachable_t cfg_verifnet 7 0 r_genesis m_w3 /\ mp_inv cfg_verifnet m_w3 /\
+  wn m_w3 = run cfg_verifnet 7 0 r_node0 m_ops /\
+  (forall h b, get_block (wn m_w3) h = Some b -> Forall (fun t => wf_tx cfg_verifnet t /\ ver_ok t = true) (b_txs b)) /\
+  (forall bs, up (b_hash r_genesis) (blocks (wn m_w3)) (b_hash r_genesis) bs ->
+     NoDup (bkeys r_genesis ++ flat_map bkeys bs) /\ c0 r_genesis + bnouts bs < two64 /\ c0 r_genesis + bntx bs < two64) /\
+  exists t w', get_block_template cfg_verifnet false m_w3 9 r_now 0 = Ok (t, w') /\ b_txs t = [m_tx] /\ b_height t = 3 /\
+    forall bh, exists l1 fee, apply_txs cfg_verifnet (ldg (wn m_w3)) (b_txs t) (b_height t) bh (top_h (wn m_w3)) 0 = Ok (l1, fee).
+Proof. exact template_reach_example. Qed.
+Print Assumptions C09_template_reach_example.
+
+(* the side conditions cannot be dropped: [mp_inv] IS FALSE ACROSS A DISCONNECTION WITHOUT THEM (witnesses on the operation
+   that re-adds the transactions of a disconnected block, RemoveBlockFromState's mempool part):
+   ids - the Tx index holds ANOTHER transaction (x_other: same id 101, amount 5000 instead of 1000) under the id of the
+   block's transaction; the index never overwrites, so the re-added entry is made from the block's transaction while the
+   index answers with the other one.  With real transaction hashes this needs a hash collision. *)
+Theorem C09_mp_inv_disconnect_needs_ids :
+  mp_inv cfg_verifnet (x_w [] [(101, x_other)]) /\
+  mp_disconnect cfg_verifnet [] m_A1 0 7200 = Ok [m_entry] /\
+  tx_adm cfg_verifnet x_other /\
+  ~ mp_inv cfg_verifnet (x_w [m_entry] [(101, x_other)]).
+Proof. exact mp_inv_disconnect_needs_ids. Qed.
+Print Assumptions C09_mp_inv_disconnect_needs_ids.
+
+(* typed - a version-0 transfer (what the blocks below HARDFORK_V2_HEIGHT carry; wf_tx and ver_ok hold of it) in the
+   disconnected block: the re-added entry's transaction is not tx_adm (tx_typed asks for the version byte of the payload
+   kind).  [mp_inv] as defined therefore does not survive the disconnection of a block of the version-0 era that carries
+   transactions; TX packets of that era are not modelled either (packet_tx code 940). *)
+Theorem C09_mp_inv_disconnect_needs_typed :
+  mp_inv cfg_verifnet (x_w [] [(101, x_v0)]) /\
+  mp_disconnect cfg_verifnet [] x_A1 0 7200 = Ok [x_entry0] /\
+  wf_tx cfg_verifnet x_v0 /\ ver_ok x_v0 = true /\
+  ~ mp_inv cfg_verifnet (x_w [x_entry0] [(101, x_v0)]).
+Proof. exact mp_inv_disconnect_needs_typed. Qed.
+Print Assumptions C09_mp_inv_disconnect_needs_typed.
+
+(* STILL NOT PROVED (correspondence run only): the side-block, stake-signature and coinbase clauses for a completed
+   template; C09_full itself is refuted (above).  Blocks of the version-0 era that carry transactions are outside (b); the
+   premise on transaction ids of (b) and the premise [paths] of C03 are stated, not derived (ids are symbolic numbers).
    OBSERVATION, outside the property (which asks for soundness only): the simulation is not complete.  While an unstake
    that empties a fund is pending, validateMempoolTx refuses a change of delegate (925) and a stake naming another
    prev_unlock than the emptied fund's (916) of the same signer, which the ledger would apply after the unstake: the
